@@ -121,34 +121,6 @@ def behaves_as_modelled(corr: "Corr", args: dict, variants: list | None = None) 
         return None
 
 
-def behaves_as_modelled(corr: "Corr", args: dict, variants: list | None = None) -> bool | None:
-    """For the `covered=` predicates of the oracles.  A listed finding describes what the UNCHANGED
-    code does on certain inputs, and the Lean model reproduces that behaviour (defects included).
-    A failing input may therefore be attributed to a listed finding only while the implementation
-    still answers on this very input what the model answers: True = it does, False = it does not
-    (the failure is of another kind: report it), None = cannot be decided here (driver missing,
-    input outside the modelled fragment) and the caller falls back to its input predicate.
-    `variants`: argument dicts for the implementation side (e.g. one per back-end combination) that
-    the model does not tell apart; all of them must give the model's answer."""
-    try:
-        if corr.spec is not None:
-            mo = corr.spec(args)
-        else:
-            if not os.path.exists(DRIVER):
-                return None
-            mo = Driver().run([{"op": corr.op, "args": args}])[0]
-        if mo is None or (isinstance(mo, dict) and ("unspecified" in mo or "fail" in mo or "unsupported" in mo)):
-            return None
-        cmo = corr.canon(mo)
-        for v in variants or [args]:
-            cio = corr.canon(corr.impl(v))
-            if not (corr.compare(cmo, cio, v) if corr.compare else cmo == cio):
-                return False
-        return True
-    except Exception:  # noqa: BLE001
-        return None
-
-
 def guarded(fn, *errs):
     """Run fn(); map listed exception types to {'err': name}; anything else
     becomes {'err': 'LEAK:<type>'}"""
